@@ -33,7 +33,7 @@ class C01(BaseMonitor):
             # undo: re-assign the value an input (or link, or list) had before one of the last accepted edits
             h = hist[-1] if r.random() < 0.6 else r.choice(hist)
             return {"op": "set", "obj": h["obj"], "attr": h["attr"], "value": copy.deepcopy(h["value"]), "src": h["src"],
-                    "undo_of": h["i"], "i": i}
+                    "undo_of": h["i"], "reuse": h is hist[-1] and r.random() < 0.5, "i": i}
         return opgen.gen_edit(r, self.sim.spec, self.cfg, i)
 
     def step(self, i, op):
@@ -598,7 +598,8 @@ class C15(FaultMonitorMixin, BaseMonitor):
         if op["op"] == "set":
             return {"op": "set", "revert": True, "obj": op["obj"], "attr": op["attr"],
                     "value": copy.deepcopy(spec["objs"][op["obj"]]["attrs"][op["attr"]]),
-                    "src": spec["objs"][op["obj"]].get("src", {}).get(op["attr"])}
+                    "src": spec["objs"][op["obj"]].get("src", {}).get(op["attr"]),
+                    "reuse": self.k.chance(0.5, "reuse-old-object", op.get("i"))}
         return None
 
     def next_op(self, i):
